@@ -1,4 +1,4 @@
-(* C02 — write-through persistence: the byte image always reopens to the same state.  Statements are printed by Check below and compared with C02.expected.  PARTIAL: proved are the write-through of the FAT, of the directory (insert / remove / metadata updates / new directory sectors) and of the MiniFAT cells (every cached cell or entry equals its bytes on disk after every mutation), that the on-disk FAT and directory read back as open does return the cache (the directory followed by the blank slots of its last sector), the entry / header codec round trips in both modes, and that strict acceptance gives the same state as permissive.  Also proved (proofs/ReopenProofs.v): the REOPEN ROUND TRIP - for every state that is Coherent (header bytes = header computed from the cache, FAT / directory / MiniFAT cache = disk, tails FREE, tables valid; no DIFAT sectors, i.e. at most 109 FAT sectors) open in BOTH modes on the concatenated image succeeds and returns exactly the cached tables (directory followed by the blank slots of its last sector, free lists rebuilt in index order); Coherent holds for the fresh file of either version and, by a sound boolean checker, for reachable example states (storages, mini and regular streams, removals, second FAT sector, second directory sector, extended MiniFAT); the header field writes of allocation keep the header coherent.  Also proved (proofs/PersistProofs.v): PERSISTENCE OVER HISTORIES of the namespace - a stronger invariant PInv (Coherent + directory and MiniFAT chains disjoint + every entry well-formed and black + the table represents a tree) holds of the fresh file of either version, is preserved by create_storage, create_new_stream, remove_storage, remove_stream (of empty streams), the four metadata setters (unchanged state on their refusals), including the growth of the directory chain by a sector with a new FAT sector, and implies the round trip; hence for EVERY history of those calls and the queries (up to 6000 calls, each Ok or without effect) the bytes alone reopen in both modes to the cached state, at every prefix.  Also proved (proofs/DataPersist.v): on files WITH stream data, write-back and resize in the cases that allocate nothing, growth of a large stream into reused or appended sectors, and the metadata calls keep cache = disk (Coherent) - hence after flush / drop of a handle the bytes alone reopen in both modes and hold what the handle showed, over histories of such operations.  Also proved (proofs/DataPersist2.v): the remaining data-moving operations keep a strengthened invariant CohTree (Coherent + every stream's chain well-formed and pairwise disjoint + free lists clean + nothing points into a free cell + tree) and hence the round trip, with the expected content in the reopened file: shrinking a large stream with release of sectors, truncation to zero (both kinds), removal of streams WITH data (large: chain freed; small: mini chain freed, MiniFAT trimmed, root length shrunk; empty), growth of a small stream with mini-sector allocation (reuse and append), first write / resize of an empty stream (small and large), both migrations across the 4096 cutoff (by resize and by write), writes that take free sectors; the REOPENED state satisfies the invariant again, so reopen may occur inside histories; persist_data_history2 lifts this to every history whose steps fall into the covered cases (ResizeCase: 11, WriteCase: 6 - sufficient conditions, spelled out in hist_ok2).  Hypothesis RootFits on mini-sector appends (the root entry's length stays below the version's length mask) records a bug candidate in the crate: nothing bounds the mini stream of a version 3 file by 4 GiB.  NOT proved: shrinking a small stream to fewer (non-zero) mini sectors, release of a large stream with a zero fill above the old content, allocation at the end of the file through writes, growth that needs a new FAT / DIFAT sector or a new sector for the mini-stream container inside those cases, creations inside CohTree histories, and the DIFAT-sector regime; these are checked at every operation boundary of generated histories: the implementation's bytes, taken without flush, are reopened in both modes by the crate and by the model and all dumps compared. *)
+(* C02 — write-through persistence: the byte image always reopens to the same state.  Statements are printed by Check below and compared with C02.expected.  PARTIAL: proved are the write-through of the FAT, of the directory (insert / remove / metadata updates / new directory sectors) and of the MiniFAT cells (every cached cell or entry equals its bytes on disk after every mutation), that the on-disk FAT and directory read back as open does return the cache (the directory followed by the blank slots of its last sector), the entry / header codec round trips in both modes, and that strict acceptance gives the same state as permissive.  Also proved (proofs/ReopenProofs.v): the REOPEN ROUND TRIP - for every state that is Coherent (header bytes = header computed from the cache, FAT / directory / MiniFAT cache = disk, tails FREE, tables valid; no DIFAT sectors, i.e. at most 109 FAT sectors) open in BOTH modes on the concatenated image succeeds and returns exactly the cached tables (directory followed by the blank slots of its last sector, free lists rebuilt in index order); Coherent holds for the fresh file of either version and, by a sound boolean checker, for reachable example states (storages, mini and regular streams, removals, second FAT sector, second directory sector, extended MiniFAT); the header field writes of allocation keep the header coherent.  Also proved (proofs/PersistProofs.v): PERSISTENCE OVER HISTORIES of the namespace - a stronger invariant PInv (Coherent + directory and MiniFAT chains disjoint + every entry well-formed and black + the table represents a tree) holds of the fresh file of either version, is preserved by create_storage, create_new_stream, remove_storage, remove_stream (of empty streams), the four metadata setters (unchanged state on their refusals), including the growth of the directory chain by a sector with a new FAT sector, and implies the round trip; hence for EVERY history of those calls and the queries (up to 6000 calls, each Ok or without effect) the bytes alone reopen in both modes to the cached state, at every prefix.  Also proved (proofs/DataPersist.v): on files WITH stream data, write-back and resize in the cases that allocate nothing, growth of a large stream into reused or appended sectors, and the metadata calls keep cache = disk (Coherent) - hence after flush / drop of a handle the bytes alone reopen in both modes and hold what the handle showed, over histories of such operations.  Also proved (proofs/DataPersist2.v): the remaining data-moving operations keep a strengthened invariant CohTree (Coherent + every stream's chain well-formed and pairwise disjoint + free lists clean + nothing points into a free cell + tree) and hence the round trip, with the expected content in the reopened file: shrinking a large stream with release of sectors, truncation to zero (both kinds), removal of streams WITH data (large: chain freed; small: mini chain freed, MiniFAT trimmed, root length shrunk; empty), growth of a small stream with mini-sector allocation (reuse and append), first write / resize of an empty stream (small and large), both migrations across the 4096 cutoff (by resize and by write), writes that take free sectors; the REOPENED state satisfies the invariant again, so reopen may occur inside histories; persist_data_history2 lifts this to every history whose steps fall into the covered cases (ResizeCase: 11, WriteCase: 6 - sufficient conditions, spelled out in hist_ok2).  Hypothesis RootFits on mini-sector appends (the root entry's length stays below the version's length mask) records a bug candidate in the crate: nothing bounds the mini stream of a version 3 file by 4 GiB.  Proved separately (proofs/SmallShrink.v): the twelfth resize case, a small stream cut to fewer non-zero mini sectors.  NOT proved: release of a large stream with a zero fill above the old content, allocation at the end of the file through writes, growth that needs a new FAT / DIFAT sector or a new sector for the mini-stream container inside those cases, creations inside CohTree histories, and the DIFAT-sector regime; these are checked at every operation boundary of generated histories: the implementation's bytes, taken without flush, are reopened in both modes by the crate and by the model and all dumps compared. *)
 From Cfb.model Require Import Base Names DirEnt State Alloc Dir Mini Store Handle Open Cfb.
 From Cfb.gen Require Import Consts.
 From Cfb.proofs Require Import CoherenceProofs CodecProofs StrictProofs DirCoherence ReopenProofs ReadonlyTotal PersistProofs HistoryRefine Progress HandleFrame DataPersist DataPersist2 SmallShrink.
